@@ -12,8 +12,8 @@ CHECKS = {}
 NA = {}
 
 
-def claim(pid, text, note, category="proof", ref="DESIGN.md 4"):
-    CHECKS[pid] = dict(category=category, text=text, note=note, ref=ref)
+def claim(pid, text, note, category="proof", ref="DESIGN.md 4", technique=None):
+    CHECKS[pid] = dict(category=category, text=text, note=note, ref=ref, technique=technique or TECH)
 
 
 def na(pid, reason):
@@ -42,7 +42,7 @@ def main():
                 "engine": "pyvc",
                 "level_claimed": {"category": c["category"], "text": c["text"], "design_ref": c["ref"]},
                 "level_note": c["note"],
-                "technique": TECH,
+                "technique": c["technique"],
             })
     not_app = [{"property_id": p, "reason": NA.get(p, "not yet served by a contract in this revision of /verif "
                                                       "(see DESIGN.md 9, build order)")}
